@@ -276,7 +276,31 @@ def r14_6(chk):
     chk.floor("R14.6", 2, "the stored positional and keyword constructor arguments")
 
 
+def r14_7(chk):
+    chk.rule("R14.7", "apply_to never raises because one record fails: the call of the writer's main inside the loop over completed results sits in a try whose handler catches Exception and turns the failure into a not-completed record (the writer is called as self.main(...), so _call's own try/except, R14.4, does not cover it)")
+    m = chk.repo.module(CP)
+    fn = m.func("_apply_to")
+    loops = [f for f in walk_no_nested(fn) if isinstance(f, ast.For) and any(isinstance(c, ast.Call) and norm(c.func) == "self.as_completed" for c in ast.walk(f.iter))]
+    if not loops:
+        raise AnalysisError("_apply_to: loop over self.as_completed(...) not found")
+    calls = [c for st in loops[0].body for c in ast.walk(st) if isinstance(c, ast.Call) and norm(c.func) in ("self.main", "self")]
+    if not calls:
+        raise AnalysisError("_apply_to: the writer call inside the result loop was not found")
+    for c in calls:
+        direct = norm(c.func) == "self.main"
+        tries = [t for t in ast.walk(loops[0]) if isinstance(t, ast.Try) and any(x is c for s in t.body for x in ast.walk(s))]
+        guarded = False
+        for t in tries:
+            for h in t.handlers:
+                names = [] if h.type is None else [norm(x) for x in (h.type.elts if isinstance(h.type, ast.Tuple) else [h.type])]
+                if (h.type is None or any(nm in ("Exception", "BaseException") for nm in names)) and any(isinstance(x, ast.Call) and (call_name(x) == "NotCompleted" or (call_name(x) or "").endswith("write_not_completed")) for x in ast.walk(h)) and not any(isinstance(r, ast.Raise) for r in ast.walk(h)):
+                    guarded = True
+        chk.decide(guarded or not direct, "R14.7", key(m, "_apply_to", "writer failure becomes a record"), m.loc(c), "the writer runs through self(...) (guarded by _call) or inside try/except Exception -> NotCompleted", "`self.main(...)` of the writer runs unguarded inside the result loop: a record the writer cannot format (an unserialisable value, a wrong type) raises out of apply_to; the records before it are written, it and every later input get no record at all")
+    chk.floor("R14.7", 1, "one writer call")
+
+
 def run(chk):
+    r14_7(chk)
     r14_6(chk)
     r14_1(chk)
     r14_2(chk)
